@@ -560,6 +560,71 @@ def r03_2(prog, rep, rid='R03.2'):
 
 
 # ------------------------------------------------------------------------------
+def _iter_scope(g, node):
+    """(loop head or None, set of body node ids or None, id of the first node
+    of one iteration / of the function)"""
+    if node.loops:
+        head = node.loops[-1]
+        return head, g.loop_body[head], loop_slice(g, head)[0]
+    return None, None, g.entry.id
+
+
+def _iteration_path_avoiding(g, node, via):
+    """is there a path of ONE iteration of the innermost loop around `node`
+    (of one call, outside loops) which goes through `node` and passes none of
+    the nodes `via` - neither before nor after it?  Exception edges leaving
+    `node` itself are not followed (the statement did not happen then)."""
+    via = set(via)
+    if node.id in via:
+        return False
+    head, body, begin = _iter_scope(g, node)
+    # reach `node` from the beginning of the iteration without `via`
+    seen, todo, reached = set(), [begin], False
+    while todo:
+        x = todo.pop()
+        if x in seen or x in via or (body is not None and x not in body):
+            continue
+        seen.add(x)
+        if x == node.id:
+            reached = True
+            continue
+        todo += [e.dst for e in g.succ[x] if not (e.back and e.dst == head)]
+    if not reached:
+        return False
+    # leave the iteration after `node` without `via`
+    seen = set()
+    todo = [(e.dst, e) for e in g.succ[node.id] if e.label != 'exc']
+    while todo:
+        x, e = todo.pop()
+        if (e.back and e.dst == head) or \
+                (body is not None and x not in body) or \
+                x in (g.exit.id, g.raise_.id):
+            return True
+        if x in seen or x in via:
+            continue
+        seen.add(x)
+        todo += [(e2.dst, e2) for e2 in g.succ[x]]
+    return False
+
+
+def _takes_back_own_increment(f, n):
+    """`self._active_cnt -= 1` which every path of its iteration reaches only
+    after an increment of the same iteration (a compensation)"""
+    g = cfg_of(f)
+    smap = I.stmt_node_map(g)
+    if id(n) not in smap:
+        return False
+    node = smap[id(n)]
+    incs = [x.id for x in g.nodes
+            if x.kind == 'stmt' and isinstance(x.ast, ast.AugAssign) and
+            isinstance(x.ast.op, ast.Add) and
+            unparse(x.ast.target) == 'self._active_cnt']
+    if not incs:
+        return False
+    begin = _iter_scope(g, node)[2]
+    return must_pass(g, begin, node.id, incs)
+
+
 # R03.3  counter discipline (_active_cnt)
 #
 def r03_3(prog, rep, rid='R03.3'):
@@ -610,6 +675,11 @@ def r03_3(prog, rep, rid='R03.3'):
                 and (one or (isinstance(n.value, ast.Call) and
                              dotted(n.value.func) == 'len')):
             pass    # checked below
+        elif isinstance(n.op, ast.Sub) and one and \
+                _takes_back_own_increment(f, n):
+            rep.info(rid, f, '`%s` in %s takes back the increment made earlier '
+                     'in the same iteration (compensation on a failure path)'
+                     % (short(n, 40), f.qual), f.loc(n))
         else:
             rep.bad(rid, f, n, '_active_cnt is changed in %s by `%s`: not a '
                     'grant (+1 in _try_allocation / pre-placed branch) and not '
@@ -649,9 +719,10 @@ def r03_3(prog, rep, rid='R03.3'):
         from .c01 import granted_by_try
         if granted_by_try(fi, g, node):
             continue
-        start = loop_slice(g, node.loops[-1])[0] if node.loops else g.entry.id
-        ids = [smap[id(n)].id for ff, n in incs_inc]
-        okay = bool(ids) and must_pass(g, start, node.id, ids)
+        ids = {smap[id(n)].id for ff, n in incs_inc}
+        # counted before OR after the hand-on, within the same iteration (the
+        # order of the two statements does not matter: one thread)
+        okay = bool(ids) and not _iteration_path_avoiding(g, node, ids)
         rep.check(okay, rid, fi, 'tasks started with application-supplied '
                   'slots are counted active', construct=c,
                   message='a task with application-supplied slots is started '
@@ -660,11 +731,15 @@ def r03_3(prog, rep, rid='R03.3'):
                   history='one pre-placed task runs and finishes: the count is '
                   '-1; a task that fits only the idle pilot is then failed as '
                   '"can never be scheduled" while another task is running')
+    starts = {smap[id(c)].id for c in calls_in(fi.node)
+              if I.is_handon(c) and I.handon_state(prog, fi, c) == target
+              and id(c) in smap}
+    backs = {smap[id(n)].id for ff, n in writers if ff is fi and
+             isinstance(n, ast.AugAssign) and isinstance(n.op, ast.Sub)
+             and id(n) in smap}
     for ff, n in incs_inc:
         nn = smap[id(n)]
-        feeds = any(I.is_handon(c) and I.handon_state(prog, fi, c) == target
-                    and smap[id(c)].id in g.reachable(nn.id, no_back=True)
-                    for c in calls_in(fi.node))
+        feeds = not _iteration_path_avoiding(g, nn, starts | backs)
         rep.check(feeds, rid, fi, '_active_cnt += 1 in _schedule_incoming '
                   'leads to a start', construct=n, message='_active_cnt is '
                   'incremented in _schedule_incoming on a path that does not '
@@ -2300,6 +2375,8 @@ MUTATIONS = [
         (_B, "            slots, partition = self.schedule_task(task)\n", "            self._active_cnt += 1\n            slots, partition = self.schedule_task(task)\n")]),
     dict(name='R03.3 pre-placed task not counted', rules=('R03.3',), edits=[
         (_B, "                        continue\n                    self._active_cnt += 1\n", "                        continue\n")]),
+    dict(name='R03.3 pre-placed task counted only when the marking failed', rules=('R03.3',), edits=[
+        (_B, "                    try:\n                        self._change_slot_states(task['slots'], rpc.BUSY)\n                    except Exception as e:\n                        self._fail_task(task, e,\n                                        '\\n'.join(ru.get_exception_trace()))\n                        continue\n                    self._active_cnt += 1\n", "                    try:\n                        self._change_slot_states(task['slots'], rpc.BUSY)\n                    except Exception as e:\n                        self._active_cnt += 1\n                        self._fail_task(task, e,\n                                        '\\n'.join(ru.get_exception_trace()))\n                        continue\n")]),
     dict(name='R03.3 release decrements twice', rules=('R03.3',), edits=[
         (_B, "            to_release.append(task)\n            self._active_cnt -= 1\n", "            to_release.append(task)\n            self._active_cnt -= 1\n            self._active_cnt -= 1\n")]),
     dict(name='R03.3 decrement only for tasks with slots', rules=('R03.3',), edits=[
@@ -2421,6 +2498,10 @@ MUTATIONS = [
 ]
 
 SILENT = [
+    dict(name='pre-placed task counted after the start hand-on (same iteration)', edits=[
+        (_B, '                    self._active_cnt += 1\n\n                    self.advance(task, rps.AGENT_EXECUTING_PENDING,\n                                 publish=True, push=True, fwd=True)\n                    continue\n', '\n                    self.advance(task, rps.AGENT_EXECUTING_PENDING,\n                                 publish=True, push=True, fwd=True)\n                    self._active_cnt += 1\n                    continue\n')]),
+    dict(name='pre-placed task counted inside the try, the handler takes the count back', edits=[
+        (_B, "                    try:\n                        self._change_slot_states(task['slots'], rpc.BUSY)\n                    except Exception as e:\n                        self._fail_task(task, e,\n                                        '\\n'.join(ru.get_exception_trace()))\n                        continue\n                    self._active_cnt += 1\n", "                    try:\n                        self._active_cnt += 1\n                        self._change_slot_states(task['slots'], rpc.BUSY)\n                    except Exception as e:\n                        self._active_cnt -= 1\n                        self._fail_task(task, e,\n                                        '\\n'.join(ru.get_exception_trace()))\n                        continue\n")]),
     dict(name='symmetric update written with FREE test', edits=[
         (_B, "                if new_state == rpc.BUSY:\n                    node['lfs'] -= slot['lfs']\n                else:\n                    node['lfs'] += slot['lfs']\n",
              "                if new_state == rpc.FREE:\n                    node['lfs'] += slot['lfs']\n                else:\n                    node['lfs'] -= slot['lfs']\n")]),
